@@ -502,6 +502,14 @@ def check_program(case):
         ok, d = call(cell.get_depth)
         if ok and d > MAXD:
             return Fail('end_cell/cell-deeper-than-1023-produced', f'{where}: cell reports depth {d}')
+        # builder operations on a builder TAKEN FROM the finished cell must not grow the cell itself past the limits
+        if len(cell.refs) < MAXR + 1:
+            call(lambda: cell.to_builder().store_ref(cell).store_ref(cell))
+            call(lambda: cell.to_builder().store_bits('1' * 8))
+            if len(cell.refs) != len(mrefs) or cell.bits.to01() != mbits:
+                return Fail('end_cell/finished-cell-grew-through-a-derived-builder',
+                            f'{where}: after to_builder().store_*: cell has {len(cell.bits)} bits / {len(cell.refs)} refs, '
+                            f'was {len(mbits)} / {len(mrefs)}')
     return first_known
 
 
